@@ -208,6 +208,12 @@ def run_peaks(ck, mu):
                 and abs(xv - im) < 1 and abs(yv - jm) < 1):
             ck.discard('paraboloid: vertex not strictly inside a full fit box around the first grid maximum')
             continue
+        # same surface in other units: a positive factor does not move the vertex; non-integer values and counts
+        # beyond 2^24 need full double precision in the fit
+        fac = [1, 1, 0.1, 1.0 / 3.0, 16777259][t % 5]
+        if fac != 1:
+            data = [[v * fac for v in r] for r in data]
+        ck.count('paraboloid_value_factor', fac if isinstance(fac, int) else round(fac, 4))
         items.append(('paraboloid', data, box, 'none', [[True] * n for _ in range(n)], (xv, yv)))
 
     cases, meta = [], []
@@ -242,8 +248,10 @@ def run_peaks(ck, mu):
                 ck.violation(rp)
                 continue
         ck.case(('peak', data, box, mm, mask if mm == 'random' else None), o['st'] != 'ERROR:NODATA')
-        cases.append(peak_coq_case(data, box, mask, o))
-        meta.append(rp)
+        if all(float(v) == int(v) for r in data for v in r):
+            # the Coq model takes integer histograms; non-integer surfaces are judged by the vertex predicate above
+            cases.append(peak_coq_case(data, box, mask, o))
+            meta.append(rp)
         if fam in ('blob', 'paraboloid', 'spike'):
             ck.sample({'peak': {'data': data, 'box': box, 'mask': mm, 'impl': rp['impl']}}, limit=6)
     shard = ck.n(400, 1500)
